@@ -181,12 +181,18 @@ def bifurcation(m, i0, i1, N):
     more or fewer evaluations, both converge) and ends a few samples away.
     Counted per estimator; reported under its own key by run_shard (listed in
     known_findings.json) - more than two per shard is a plain violation."""
-    if MTAP is None or not m.startswith("fit_") or abs(i1 - i0) > .05 * N:
+    if MTAP is None or not m.startswith("fit_"):
         return False
     ev = [e for e in MTAP.poc_log[-2:]]
     if len(ev) < 2 or not all(e["success"] and not e["aborted"] for e in ev):
         return False
-    if max(e["nfev"] for e in ev) < 2 * min(e["nfev"] for e in ev):
+    ratio = max(e["nfev"] for e in ev) / max(1, min(e["nfev"] for e in ev))
+    # a few samples apart with clearly different paths (first witness), or
+    # two different optima of the internal fit (second witness, sweep #9:
+    # 999 vs 502 of 2000 after 2009 vs 3036 evaluations on a noise-free
+    # curve; which one is reached flips with the rounding of the scaled
+    # array).  Either way at most two per shard and estimator (run_shard).
+    if not ((abs(i1 - i0) <= .05 * N and ratio >= 2) or ratio >= 1.3):
         return False
     BIFURCATIONS.setdefault(m, []).append((i0, i1, N))
     return True
@@ -406,15 +412,24 @@ def run_shard(rec, tier, seed, shard, nshards):
 
 
 def replay(rec, case):
+    global MTAP
     c = case["case"]
     tap = Tap()
     tap.install()
+    MTAP = fitlab.MinimizeTap().install()
     try:
         if c.get("kind") == "curve":
             cid = c["id"]
             curve_case(rec, tap, core.case_rng(case["seed"], ID, cid[0],
                                                cid[1]), cid,
                        large_clean=cid[1] >= 2 * 10 ** 6)
+            for m, lst in BIFURCATIONS.items():
+                rec.violation("invariance/fit-based-estimator/optimiser-"
+                              "path-bifurcation",
+                              "%s: index %d -> %d (N=%d) under a scale / "
+                              "shift; the internal Nelder-Mead fit took "
+                              "another path" % ((m,) + lst[0]),
+                              {"id": cid, "method": m})
         else:
             arr = core.unjson(c["array"])
             from nanite import poc
@@ -423,3 +438,5 @@ def replay(rec, case):
                          "degenerate")
     finally:
         tap.remove()
+        MTAP.remove()
+        MTAP = None
